@@ -342,6 +342,12 @@ class World:
                 return
             # maybe a dependency violation the model predicts for this tick
             dep = self.model_advance(built, sus_cmds, observed=None, dry=True)
+            if dep is None:
+                # a parent whose demand is within float rounding of its limit may have been killed in this very tick
+                # instead of completing: the child's start is then rightly refused
+                dep = self.model_advance(built, sus_cmds, observed=None, dry=True, boundary_fails=True)
+                if dep is not None:
+                    self.ev("rejected:dependency-on-parent-killed-at-float-boundary")
             if dep is not None:
                 self.ev("rejected:dependency")
                 if step.get("_split_family"):
@@ -377,7 +383,7 @@ class World:
         pi, oi = key
         return all(self.mstate[(pi, q)] == "completed" for q in self.specs[pi]["ops"][oi]["parents"])
 
-    def model_advance(self, built, sus_cmds, observed, dry):
+    def model_advance(self, built, sus_cmds, observed, dry, boundary_fails=False):
         """Advance the model by one executor tick.  With dry=True nothing is changed and
         only a dependency violation (key of the offending operator) is looked for.
         Returns the offending key or None."""
@@ -403,6 +409,8 @@ class World:
                         if not all(shadow[(pi, q)] == "completed" for q in self.specs[pi]["ops"][oi]["parents"]):
                             return key
                     over_own = t.demand > ram and not near(t.demand, ram)
+                    if boundary_fails and near(t.demand, ram):
+                        over_own = True      # the other admissible outcome of a demand within rounding of the limit
                     if t.ends_op and not over_own:
                         shadow[keys[t.op]] = "completed"
             return None
